@@ -23,7 +23,8 @@ RULE = ('enable masks: 3 bias x 3 walk (only where bias) x 3 noise x 9 scale/mis
         'rate and increment types, irregular stamps, Series and DataFrame increment forms; non-trivial = not one of '
         'the four hand-written configurations of the existing tests; distinct = distinct (mask, values)'
         ' Round 3: integer-typed irregular time index (whole seconds); random update / reset / correct / read-back histories on one model against a fresh model holding the same estimates.'
-        ' Round 4: disabled axes marked by negative elements (documented) as well as by zeros.')
+        ' Round 4: disabled axes marked by negative elements (documented) as well as by zeros.'
+        ' Round 5: updates of the wrong length inside the call histories - refused (ValueError) and leaving no trace in the estimates.')
 ASSUMPTIONS = ['noise scaling is read off deterministically through a RandomState subclass that records randn']
 REQUIRED_OBS = ['rejected_updates', 'negative_disable_marks', 'integer_typed_time_index', 'history_corrections_checked', 'invariant_evaluations', 'roundtrip_checked', 'output_matrix_checked', 'split_updates_checked',
                 'naming_checked', 'noise_scaling_checked', 'walk_scaling_checked', 'from_model_checked']
